@@ -25,6 +25,7 @@ Fixpoint lit (s : String.string) : str :=
   | String.EmptyString => []
   | String.String a s' => Ascii.N_of_ascii a :: lit s'
   end.
+Arguments lit _%string_scope.
 
 (* ---- syntax trees ---------------------------------------------------------- *)
 (* a plain decimal spelling: integer digits, optionally '.' and fraction digits *)
@@ -137,6 +138,9 @@ Section Values.
        t_vars := canon_vars (map var_val (snd (snd x))) |}.
   Definition terms_of (src : msrc) : list (term T) := map term_of src.
 End Values.
+
+(* strict order of variable names (Rust String order on single-letter names) *)
+Definition name_lt (a b : name) : Prop := name_leb a b = true /\ name_eqb a b = false.
 
 Definition letters_of (src : msrc) : list N := flat_map (fun x => map fst (snd (snd x))) src.
 Definition vars_of (src : msrc) : list name := map (fun l => [l]) (letter_set (letters_of src)).
